@@ -165,6 +165,8 @@ def run(ctx):
     ]
     ctx.proof("C16")
     ctx.proof("C16inc")
+    from . import c15 as _c15
+    _c15.translator_tie(ctx)      # the output-path table regenerated from compiler.py / runtime.py (shared with C15)
 
     # ---------------- K-esc: escape / unescape5
     strs = []
